@@ -47,16 +47,45 @@ def strategy(tier):
                                           'act': st.booleans()}),
         'extra_pairs': st.lists(st.sampled_from(['same', 'same', 'diff']),
                                 max_size=2),
+        'eol': st.sampled_from(EOLS),
     }).map(flatten)
+
+
+# line terminators both readers (universal-newline file reading, then
+# str.splitlines) treat alike; 'exotic' puts a further line-boundary
+# character inside every line of an IDENTICAL pair of texts
+EOLS = ['\n', '\n', '\n', '\r\n', '\r\n', '\r', 'exotic:\x0c',
+        'exotic:\u2028', 'exotic:\x85', 'exotic:\x0b', 'exotic:\x1d']
 
 
 def flatten(c):
     m = c.pop('main')
     c.update(m)
+    if c['eol'].startswith('exotic:'):
+        ch = c['eol'][7:]
+        c['ref'] = [ln[:len(ln) // 2] + ch + ln[len(ln) // 2:]
+                    for ln in c['ref']]
+        c['act'] = list(c['ref'])
+        c['newline']['act'] = c['newline']['ref']
     return c
 
 
 def valid(case):
+    eol = case.get('eol', '\n')
+    if eol not in EOLS:
+        return False
+    if eol.startswith('exotic:'):
+        ch = eol[7:]
+        if case.get('ref') != case.get('act') or case.get('newline', {}).get(
+                'ref') != case.get('newline', {}).get('act'):
+            return False
+        strip = lambda xs: [x.replace(ch, '') for x in xs] if isinstance(
+            xs, list) and all(isinstance(x, str) for x in xs) else None
+        if not L.valid_lines(strip(case.get('ref'))):
+            return False
+        return (L.valid_opts(case.get('opts'))
+                and case.get('entry') in ENTRIES
+                and isinstance(case.get('extra_pairs'), list))
     return (L.valid_lines(case.get('ref')) and L.valid_lines(case.get('act'))
             and L.valid_opts(case.get('opts'))
             and case.get('entry') in ENTRIES
@@ -67,10 +96,12 @@ def valid(case):
             and all(x in ('same', 'diff') for x in case['extra_pairs']))
 
 
-def to_text(lines, final_newline):
-    t = '\n'.join(lines)
+def to_text(lines, final_newline, eol='\n'):
+    if eol.startswith('exotic:'):
+        eol = '\n'
+    t = eol.join(lines)
     if final_newline and lines:
-        t += '\n'
+        t += eol
     return t
 
 
@@ -96,14 +127,18 @@ class Recorder(object):
         return any(not ok for (ok, _) in self.calls)
 
 
-def greedy_class(case, info):
+def greedy_class(case, got_pass, line_pairs):
     """
-    Predicate of the recorded finding: some pair of lines is excused by an
-    ignore-pattern under the statement's rule (dynamic programming over all
-    factorisations) but not under tdda's documented greedy split
-    (tv.gen.lines.greedy_equivalent).
+    Predicate of the recorded finding: the verdict differs from the rule,
+    and it is exactly the verdict the rule gives when "differs only in parts
+    matched by an ignore-pattern" is decided by tdda's documented greedy
+    split (tv.gen.lines.greedy_equivalent) instead of over all
+    factorisations -- i.e. some pair the statement excuses is not excused
+    (which can also turn a non-permutation into a permutation).
     """
-    return bool(info.get('greedy_would_miss'))
+    g_all = all(L.spec(r, a, case['opts'], equiv=L.greedy_equivalent)[0]
+                for (r, a) in line_pairs)
+    return g_all == got_pass
 
 
 def run(case, ctx):
@@ -113,14 +148,23 @@ def run(case, ctx):
     o = case['opts']
     ref, act = case['ref'], case['act']
     entry = case['entry']
+    eol = case.get('eol', '\n')
+    exotic = eol.startswith('exotic:')
     d = ctx.fresh_dir()
     tmp = os.path.join(d, 'tmp')
     os.makedirs(tmp)
     if entry == 'check_strings':
-        expect, info = L.spec(ref, act, o)
+        lines_ref, lines_act = ref, act
     else:
-        expect, info = L.spec(L.text_lines(ref, case['newline']['ref']),
-                              L.text_lines(act, case['newline']['act']), o)
+        lines_ref = L.text_lines(ref, case['newline']['ref'])
+        lines_act = L.text_lines(act, case['newline']['act'])
+    if exotic:
+        # identical texts: must pass under every option combination
+        expect, info = True, {'reason': 'identical-with-line-boundary-char',
+                              'used': [], 'unexcused': []}
+        out.label('exotic-line-boundary')
+    else:
+        expect, info = L.spec(lines_ref, lines_act, o)
     pairs = [(ref, act, expect)]
     if entry == 'assertTextFilesCorrect':
         for x in case['extra_pairs']:
@@ -132,6 +176,8 @@ def run(case, ctx):
                 pairs.append((['LEFT'], ['RIGHT'], e2))
     expect_all = all(p[2] for p in pairs)
 
+    if eol in ('\r\n', '\r'):
+        out.label('eol:' + repr(eol))
     out.label('entry:' + entry, 'expect:' + ('pass' if expect else 'fail'),
               'reason:' + info['reason'])
     for u in info.get('used', []):
@@ -151,9 +197,9 @@ def run(case, ctx):
     ref_path = os.path.join(d, 'ref.txt')
     act_path = os.path.join(d, 'act.txt')
     with open(ref_path, 'w', encoding='utf-8', newline='') as f:
-        f.write(to_text(ref, case['newline']['ref']))
+        f.write(to_text(ref, case['newline']['ref'], eol))
     with open(act_path, 'w', encoding='utf-8', newline='') as f:
-        f.write(to_text(act, case['newline']['act']))
+        f.write(to_text(act, case['newline']['act'], eol))
 
     if entry == 'check_strings':
         fc = FilesComparison(print_fn=None, verbose=False, tmp_dir=tmp)
@@ -163,7 +209,8 @@ def run(case, ctx):
             got_pass = (r.failures == 0)
     elif entry == 'assertStringCorrect':
         ok, r = call(rt.assertStringCorrect,
-                     to_text(act, case['newline']['act']), ref_path, **kw)
+                     to_text(act, case['newline']['act'], eol), ref_path,
+                     **kw)
         got_pass = not rec.failed
     elif entry == 'assertTextFileCorrect':
         ok, r = call(rt.assertTextFileCorrect, act_path, ref_path, **kw)
@@ -193,7 +240,11 @@ def run(case, ctx):
                                   'pass' if expect else 'fail',
                                   info['reason'], ref, act,
                                   {k: v for (k, v) in o.items() if v}))
-        if expect and not got_pass and greedy_class(case, info):
+        line_pairs = [(lines_ref, lines_act)]
+        if entry == 'assertTextFilesCorrect':
+            line_pairs += [(p[0], p[1]) for p in pairs[1:]]
+        if (not exotic and info.get('greedy_would_miss')
+                and greedy_class(case, got_pass, line_pairs)):
             out.known_hit(F_GREEDY, detail)
         else:
             out.violate('verdict', '%s:%s' % (direction, info['reason']),
